@@ -44,7 +44,7 @@ def project_file(options: dict, body: str = "") -> str:
 CAPTURED = {}      # "docs": the ford.output.Documentation instance of the last build (project, pages ...)
 
 
-def build_site(root: Path, project_md: str = "project.md", cli=None, graphs_real=False, cwd=None):
+def build_site(root: Path, project_md: str = "project.md", cli=None, graphs_real=False, cwd=None, argv=None):
     """Run FORD on root/project_md in this process.  -> (settings, captured output)
     Raises whatever escapes ford.main (SystemExit included).  The Documentation object that
     ford.main builds is kept in CAPTURED["docs"] (observation only)."""
@@ -72,8 +72,17 @@ def build_site(root: Path, project_md: str = "project.md", cli=None, graphs_real
             os.chdir(cwd)
             pdir = Path(os.path.relpath(pdir, cwd))
         with contextlib.redirect_stdout(buf), contextlib.redirect_stderr(buf):
-            docs, data = ford.load_settings(text, pdir, pfile.name)
-            data, docs = ford.parse_arguments(cli, docs, data, pdir)
+            if argv is not None:
+                # the real command-line front end (argparse + initialize), as `ford <argv> project.md`
+                old_argv = sys.argv
+                sys.argv = ["ford"] + list(argv) + [os.path.join(str(pdir), pfile.name) if cwd is not None else pfile.name]
+                try:
+                    data, docs = ford.initialize()
+                finally:
+                    sys.argv = old_argv
+            else:
+                docs, data = ford.load_settings(text, pdir, pfile.name)
+                data, docs = ford.parse_arguments(cli, docs, data, pdir)
             ford.main(data, docs)
     finally:
         os.chdir(old_cwd)
